@@ -58,7 +58,7 @@ class C08(Check):
             'transitions = distinct consecutive pairs, traces_validated = real counts whose every in-scope snapshot and every iteration exit satisfied the model. '
             'non-trivial = counts with at least one iteration round that did not end by electing')
     assumptions = ['bounded election sizes', 'meek/warren with rational arithmetic only on the smallest space under a CPU budget (thorough)']
-    budget = {'quick': 115, 'thorough': 2400}
+    budget = {'quick': 240, 'thorough': 3000}
 
     def cases(self, tier):
         D = [{'rule': 'meek'}, {'rule': 'warren'}, {'rule': 'meek-prf'}]
